@@ -163,8 +163,9 @@ type c19Case struct {
 }
 
 type c19RL struct {
-	HasMethod bool `json:"has_readable_len"`
-	N         int  `json:"readable_len"`
+	HasMethod bool  `json:"has_readable_len"`
+	N         int   `json:"readable_len"`
+	Later     []int `json:"later_values,omitempty"` // the wrapped object's readable length changes after it was wrapped
 }
 
 type rwPlain struct{ bytes.Buffer }
@@ -206,6 +207,19 @@ func c19ReadableLen(c *mc.Ctx, k c19RL) {
 			bad("remaining-bytes", "RemainingBytes() = %d, want %d (the positive readable length, otherwise 'unknown' = max uint64)", got, want)
 			return
 		}
+		for _, n := range k.Later {
+			if x, ok := rw.(*rwLen); ok {
+				x.n = n
+				w2 := ^uint64(0)
+				if n > 0 {
+					w2 = uint64(n)
+				}
+				if got := t.RemainingBytes(); got != w2 {
+					bad("remaining-bytes-later", "after the wrapped object's readable length changed to %d: RemainingBytes() = %d, want %d", n, got, w2)
+					return
+				}
+			}
+		}
 		if n, err := t.Write([]byte("xyz")); n != 3 || err != nil || inner.String() != "xyz" {
 			bad("passthrough", "Write does not pass through to the wrapped object")
 			return
@@ -228,6 +242,64 @@ type c19CB struct {
 	Which string `json:"callback"` // check | read | write
 	Steps []int  `json:"steps"`    // 0 register f1, 1 register f2, 2 register nil, 3 call
 	Index int    `json:"index"`    // position in the deterministic enumeration: the bridges keep process-global state, so a replay runs cases 0..Index
+}
+
+// c19Cross: sequences over ALL three bridges at once (a registration of one must not disturb another).
+// step = bridge*2 + action; action 0 = register a fresh callback, 1 = call.
+func c19Cross(c *mc.Ctx, k c19CB) {
+	c.Eval(1)
+	bad := func(class, format string, a ...interface{}) {
+		c.Violate("cross", "C19|callback-cross|"+class, fmt.Sprintf("bridges check/read/write, steps %v (step = bridge*2 + {0 register, 1 call}): ", k.Steps)+fmt.Sprintf(format, a...), k)
+	}
+	apache.RegisterCheckTStruct(nil)
+	apache.RegisterThriftRead(nil)
+	apache.RegisterThriftWrite(nil)
+	reg := [3]int{}
+	calls := [3]int{}
+	pi := mc.Try(func() {
+		for si, st := range k.Steps {
+			b, act := st/2, st%2
+			if act == 0 {
+				reg[b] = si + 1
+				id := si + 1
+				switch b {
+				case 0:
+					apache.RegisterCheckTStruct(func(v interface{}) error { calls[0] = id; return nil })
+				case 1:
+					apache.RegisterThriftRead(func(r bufiox.Reader, v interface{}) error { calls[1] = id; return nil })
+				default:
+					apache.RegisterThriftWrite(func(w bufiox.Writer, v interface{}) error { calls[2] = id; return nil })
+				}
+				continue
+			}
+			calls[b] = 0
+			var err error
+			switch b {
+			case 0:
+				err = apache.CheckTStruct(si)
+			case 1:
+				err = apache.ThriftRead(nil, si)
+			default:
+				err = apache.ThriftWrite(nil, si)
+			}
+			name := []string{"check", "read", "write"}[b]
+			if reg[b] == 0 {
+				if err == nil || calls[b] != 0 {
+					bad("unregistered", "step %d: the %s callback was never registered but the call returned %v (callback ran: %v)", si, name, err, calls[b] != 0)
+					return
+				}
+			} else if err != nil || calls[b] != reg[b] {
+				bad("lost-registration", "step %d: the %s callback registered at step %d did not run (ran %d, err %v) — a registration of another bridge disturbed it", si, name, reg[b]-1, calls[b]-1, err)
+				return
+			}
+		}
+	})
+	if pi != nil {
+		bad("panic", "panic: %s at %s", pi.Msg, pi.Frame)
+	}
+	apache.RegisterCheckTStruct(nil)
+	apache.RegisterThriftRead(nil)
+	apache.RegisterThriftWrite(nil)
 }
 
 func c19CallbackCases() []c19CB {
@@ -392,8 +464,11 @@ func c19Run(c *mc.Ctx) {
 	c.Sample("history", []string{"Twrite(2)", "Bread(1)", "Tclose(0)", "Bwrite(1)", "Tread(200)"})
 	if c.Mine() {
 		c19ReadableLen(c, c19RL{HasMethod: false})
-		for _, n := range []int{math.MinInt, -1, 0, 1, 2, 4096, math.MaxInt} {
+		for _, n := range []int{math.MinInt, -2, -1, 0, 1, 2, 4096, math.MaxInt} {
 			c19ReadableLen(c, c19RL{HasMethod: true, N: n})
+			for _, later := range [][]int{{5}, {0, 7}, {-1, 3, 0}, {9, -2, 1}} {
+				c19ReadableLen(c, c19RL{HasMethod: true, N: n, Later: later})
+			}
 		}
 		c.Done("generic transport: no ReadableLen, ReadableLen in {minInt,-1,0,1,2,4096,maxInt}")
 	}
@@ -402,6 +477,20 @@ func c19Run(c *mc.Ctx) {
 		for _, k := range c19CallbackCases() {
 			c19Callbacks(c, k)
 		}
+		// all sequences of <= 4 steps over {register, call} x {check, read, write}
+		var rec func(steps []int)
+		rec = func(steps []int) {
+			if len(steps) > 0 {
+				c19Cross(c, c19CB{Which: "cross", Steps: append([]int{}, steps...)})
+			}
+			if len(steps) == 4 {
+				return
+			}
+			for st := 0; st < 6; st++ {
+				rec(append(steps, st))
+			}
+		}
+		rec(nil)
 		// the three 'not registered' errors are specific to their callback
 		apache.RegisterCheckTStruct(nil)
 		apache.RegisterThriftRead(nil)
@@ -440,6 +529,8 @@ func init() {
 				})
 			case "generic":
 				replayAs(raw, func(k c19RL) { c19ReadableLen(c, k) })
+			case "cross":
+				replayAs(raw, func(k c19CB) { c19Cross(c, k) })
 			default:
 				replayAs(raw, func(k c19CB) {
 					// process-global state (registration, anything the bridge caches): re-run the enumeration up to the recorded case
